@@ -17,4 +17,9 @@ PROPS = {
             "technique": "symbolic execution of the real Mul/Add/... impls at an exact-real symbolic scalar; each output entry compared with the harness's sum of products as a polynomial identity decided by z3 (QF_NRA), all sizes x layouts x operand forms",
             "level_text": "Bounded symbolic execution + SMT: every entry of every product/operator result is a term built by the real compiled code; the solver shows it equal to the textbook expression for all real inputs. No loop or value bound applies (trip counts are the concrete dimensions 2,3,4).",
             "level_note": "Exact-real semantics of the generic source (mul_add = a*b+c); floating-point rounding and integer overflow of concrete element types are outside the claim. Trusted: rustc, the symbolic scalar's term construction, z3.", "bounds": {"sizes": [2, 3, 4], "layouts": ["row_major", "column_major"], "value_bound": "none (all reals)", "loops": "concrete trip counts only"}, "assumptions": COMMON_S},
+    "C06": {"engines": "S",
+            "technique": "symbolic execution of the real determinant/inverted/inverted_affine_transform* code at an exact-real scalar; M*inv = inv*M = I, det = Leibniz, det multiplicative as fraction-lifted polynomial identities decided by z3 (QF_NRA); rigid/TRS inputs through a rational parametrisation of SO(3)",
+            "level_text": "Bounded symbolic execution + SMT: all 16 entries free reals (det != 0 as the only assumption; the code's single divisor is shown non-zero under it); every entry of M*inv and inv*M is proved equal to the identity for all such inputs; the epsilon-select of the affine inverse forks and every branch is decided.",
+            "level_note": "Exact-real semantics; no loop bound applies. Rotations enter through the quaternion parametrisation (covers all of SO(3)); scales with s^2 > EPS. Trusted: rustc, the symbolic scalar, z3.",
+            "bounds": {"sizes": [2, 3, 4], "layouts": 2, "det(AB) for 4x4": "thorough tier only", "affine inverse": "scales with s_i^2 > EPS (EPS symbolic in (0, 2^-20])"}, "assumptions": COMMON_S},
 }
